@@ -201,6 +201,8 @@ impl ast::Expr {
 ///
 /// See the [the module-level documentation][self] for more details.
 pub fn run<V: ast::Visitable>(ast: &mut V, ctx: &CompilerContext) -> Result<(), ErrorReported> {
+    #[cfg(truth_verif)]
+    crate::verif_hooks::pass("const_simplify");
     let mut visitor = Visitor { errors: ErrorFlag::new(), ctx };
     ast.visit_mut_with(&mut visitor);
     visitor.errors.into_result(())
